@@ -271,43 +271,104 @@ def t2(ctx):
         r.inst('anynode:' + name)
         if len(fs) != 1 or squash(sx.render(fs[0]['body']['stmts'][0])) != 'AnyNode::%s(x)' % name:
             r.fail('%s:%s:into-anynode' % (CRATE, name), where, 'From<%s> for AnyNode must be AnyNode::%s(x)' % (name, name))
-    # IntoIterator for &N and TryFrom<&N> for Locate
+    # IntoIterator for &N and TryFrom<&N> for Locate  (three verdicts; one finding per distinct generated shape)
+    iter_new = None
+    for im in impls(exp['items']):
+        if not im.get('trait_path') and squash(sx.render_ty(im['self_ty'])).startswith('Iter'):
+            for it_ in im['items']:
+                if it_['k'] == 'fn' and it_['name'] == 'new':
+                    iter_new = it_
+
+    def judge_into_iter(f):
+        if iter_built(f, reversed_times=1, from_self=True):
+            return 'ok', ''
+        st_ = f['body']['stmts']
+        if len(st_) == 1 and st_[0]['k'] == 'expr' and not st_[0].get('semi') and squash(sx.render(st_[0]['e'])) == 'Iter::new(self.into())':
+            if iter_new is not None and iter_built(iter_new, reversed_times=1, from_self=False):
+                return 'ok', ''
+            return 'undecided', 'Iter::new(self.into()) with an Iter::new the rule cannot vouch for'
+        lits_ = [n for n in sx.walk(f['body']) if n.get('k') == 'struct' and n['p'] == 'Iter']
+        revs_ = [n for n in sx.walk(f['body']) if n.get('k') == 'mcall' and n['m'] in ('reverse', 'rev')]
+        if len(lits_) == 1 and len(revs_) != 1 and 'self.into()' in squash(sx.render(f['body'])):
+            return 'wrong', 'the child list is reversed %d times before it becomes the stack of Iter (children are then visited back to front)' % len(revs_)
+        return 'undecided', 'found %s' % [squash(sx.render(s_))[:60] for s_ in st_][:3]
+
+    def judge_locate_merge(f):
+        body_ = f['body']
+        pname = sx.pat_idents(f['sig']['params'][0]['pat'])[0]
+        fors_ = [n for n in sx.walk(body_) if n.get('k') == 'for']
+        if len(fors_) != 1:
+            return 'undecided', 'expected one loop over the leaves'
+        it_ = squash(sx.render(fors_[0]['e']))
+        if '.rev()' in it_:
+            return 'wrong', 'the leaves are visited back to front'
+        if it_ not in (pname, pname + '.into_iter()'):
+            return 'undecided', 'iteration over `%s`' % it_[:40]
+        lits_ = [n for n in sx.walk(body_) if n.get('k') == 'struct' and n['p'] == 'Locate']
+        if len(lits_) != 1:
+            return 'undecided', '%d Locate literals' % len(lits_)
+        flds_ = {x['n']: x['e'] for x in lits_[0]['fields']}
+        if set(flds_) != {'offset', 'line', 'len'}:
+            return 'undecided', 'Locate literal with fields %s' % sorted(flds_)
+        off, lin, ln = flds_['offset'], flds_['line'], flds_['len']
+        if not (off.get('k') == 'field' and off['m'] == 'offset' and sx.is_path(off['e']) and lin.get('k') == 'field' and lin['m'] == 'line' and sx.is_path(lin['e'])):
+            return 'undecided', 'offset/line not taken from a variable'
+        acc = off['e']['p']
+        if lin['e']['p'] != acc:
+            return 'wrong', 'offset and line of the merged span come from different values'
+        # the leaf variable: bound by a RefNode::Locate(..) pattern
+        leaf = None
+        for n in sx.walk(body_):
+            if n.get('k') == 'ts' and n['p'] == 'RefNode::Locate' and n['e'] and n['e'][0].get('k') == 'ident':
+                leaf = n['e'][0]['n']
+        if leaf is None:
+            return 'undecided', 'no RefNode::Locate(..) binding'
+        if acc == leaf:
+            return 'wrong', 'the merged span takes offset and line from the CURRENT leaf instead of the first one'
+        lt = squash(sx.render(ln))
+        if lt not in ('(%s.len+%s.len)' % (acc, leaf), '(%s.len+%s.len)' % (leaf, acc)):
+            if lt in ('%s.len' % leaf, '%s.len' % acc) or '+' not in lt:
+                return 'wrong', 'the merged length is `%s`, not the sum of the accumulated and the current leaf length' % lt
+            return 'undecided', 'merged length `%s`' % lt
+        first = any(squash(sx.render(n)) == 'Some(*%s)' % leaf for n in sx.walk(body_) if n.get('k') == 'call')
+        if not first:
+            return 'undecided', 'initialisation from the first leaf not recognised'
+        return 'ok', ''
+
     n_iter = 0
+    groups3, groups4 = {}, {}
     for (tp, st), lst in by.items():
         if tp == 'IntoIterator' and st.startswith("&'a") and st[3:] in node_names:
             name = st[3:]
-            rec = nt.enums.get(name) or nt.structs[name]
             f = impl_fn(lst[0], 'into_iter')
-            txt = [squash(sx.render(s)) for s in f['body']['stmts']]
             n_iter += 1
             r3.inst('derive-into_iter:' + name)
-            if not iter_built(f, reversed_times=1, from_self=True):
-                r3.fail('%s:%s:into_iter' % (CRATE, name), '%s:%d' % (rec['file'], rec['line']),
-                        'IntoIterator for &%s must build the child list, reverse it once, and wrap it in Iter; found %s' % (name, txt))
+            groups3.setdefault(judge_into_iter(f), []).append(name)
         if tp == 'TryFrom' and st == 'Locate':
             for im in lst:
                 f = impl_fn(im, 'try_from')
                 pty = squash(sx.render_ty(f['sig']['params'][0]['ty']))
                 if not pty.startswith('&'):
                     continue
-                name = pty[1:]
+                name = pty[1:].replace("'a", '')
                 if name not in node_names:
                     continue
-                rec = nt.enums.get(name) or nt.structs[name]
                 r4.inst('locate-merge:' + name)
-                lits = [n for n in sx.walk(f['body']) if n.get('k') == 'struct' and n['p'] == 'Locate']
-                ok = len(lits) == 1
-                if ok:
-                    flds = {x['n']: squash(sx.render(x['e'])) for x in lits[0]['fields']}
-                    ok = flds.get('offset') == 'loc.offset' and flds.get('line') == 'loc.line' and \
-                        flds.get('len') in ('(loc.len+x.len)', '(x.len+loc.len)')
-                fors = [n for n in sx.walk(f['body']) if n.get('k') == 'for']
-                ok = ok and len(fors) == 1 and squash(sx.render(fors[0]['e'])) == 'x'
-                first = any(squash(sx.render(n)) == 'locate=Some(*x)' for n in sx.walk(f['body']) if n.get('k') == 'assign')
-                if not (ok and first):
-                    r4.fail('%s:%s:locate-merge' % (CRATE, name), '%s:%d' % (rec['file'], rec['line']),
-                            'TryFrom<&%s> for Locate must start from the first leaf and extend with Locate{offset: loc.offset, line: '
-                            'loc.line, len: loc.len + x.len} over a forward iteration' % name)
+                groups4.setdefault(judge_locate_merge(f), []).append(name)
+    for rr, groups, what, keyname in ((r3, groups3, 'IntoIterator for &%s must build the child list, reverse it once, and wrap it in Iter', 'into_iter'),
+                                      (r4, groups4, 'TryFrom<&%s> for Locate must start from the first leaf and extend with {offset, line of the first leaf; len: accumulated + leaf} over a forward iteration', 'locate-merge')):
+        for (verdict, why), names in sorted(groups.items()):
+            if verdict == 'ok':
+                continue
+            names.sort()
+            rec = nt.enums.get(names[0]) or nt.structs[names[0]]
+            scope = 'derive(Node)' if len(names) > 50 else names[0]
+            where_ = '%s:%d' % (rec['file'], rec['line'])
+            msg = (what % (names[0] + (' (and %d more node types: generated code)' % (len(names) - 1) if len(names) > 1 else ''))) + ': ' + why
+            if verdict == 'wrong':
+                rr.fail('%s:%s:%s' % (CRATE, scope, keyname), where_, msg)
+            else:
+                rr.undecided('%s:%s:%s' % (CRATE, scope, keyname), where_, msg)
     r3.floor('derived_into_iter', n_iter, 1110)
     r4.floor('derived_locate_merges', r4.instances, 1110)
     # RefNode::next / into_iter / From<&AnyNode>
